@@ -78,6 +78,26 @@ class Impl(object):
                 raise
         self.ircdb.UsersDictionary.getUserId = watched
 
+    def ambient(self):
+        """how many times the bot looks the sender up around a command with this set of plugins: measured once"""
+        if getattr(self, '_amb', None) is None:
+            calls = []
+            cur = self.ircdb.UsersDictionary.getUserId
+            def counting(ud, s):
+                calls.append(s); return cur(ud, s)
+            self.ircdb.UsersDictionary.getUserId = counting
+            try:
+                bot.feed(self.b, 'cal!cal@cal.example', self.b.irc.nick, 'user identify nosuchaccount x')
+            finally:
+                self.ircdb.UsersDictionary.getUserId = cur
+            i = calls.index('nosuchaccount')
+            pre, post = i, len(calls) - i - 1
+            # the first two are checkIgnored in Owner.__call__ / Owner.doPrivmsg (DuplicateHostmask escapes),
+            # the others go through ircdb.checkCapability (which swallows it)
+            self._amb = (2, pre - 2, post)
+            self.b.irc.state.nicksToHostmasks.clear()
+        return self._amb
+
     def err(self, e):
         if isinstance(e, AssertionError): return 'err\tassertion'
         if isinstance(e, KeyError): return 'err\tkey'
@@ -485,7 +505,7 @@ def run_history(impl, ops, kind, oracle=True):
 
 # ---- plugin stream: the real User plugin on the live bot -----------------------------------
 P_PREF = ['na!ua@home.alice.example', 'nm!um@dyn7.isp.example', 'nb!ub@b.example', 'nc!uc@dyn9.isp.example', 'nd!ud@d.example']
-P_NAMES = ['alice', 'bobby', 'carol', 'Alice']
+P_NAMES = ['alice', 'bobby', 'carol', 'Alice', 'na', 'NM', 'all']
 P_MASKS = ['*!*@*.isp.example', '*!*@home.alice.example', 'n?!*@*.example', 'nm!*@*.example', '*!ua@*', 'nb!ub@b.example',
            '*!*@dyn?.isp.example', 'NM!UM@DYN7.ISP.EXAMPLE', 'n{!*@*.example', '*!*@*', 'nq!*@*']
 P_PWS = ['pw1', 'pw2', 'wrong']
@@ -498,7 +518,7 @@ def classify(texts):
     if 'You must be registered to use this command' in t: return 'notRegistered'
     if "in my user database" in t: return 'noUser'
     if 'Your secure flag is true' in t: return 'secureError'
-    if 'That name is already assigned' in t: return 'nameTaken'
+    if 'That name is already assigned' in t or 'is already registered.' in t: return 'nameTaken'
     if 'Your hostmask is already registered to' in t or 'That hostmask is already registered' in t: return 'hostmaskTaken'
     if 'Hostmask must contain at least' in t: return 'invalidMask'
     if 'is not a valid' in t: return 'invalid'
@@ -518,6 +538,7 @@ def p_text(c):
     if k == 'p_hostrm': return 'user hostmask remove %s' % (c[3] if c[2] is None else '%s %s %s' % (c[2], c[3], c[4]))
     if k == 'p_secure': return 'user set secure %s %s' % (c[2], 'True' if c[3] else 'False')
     if k == 'p_whoami': return 'user whoami'
+    if k == 'p_changename': return 'user changename %s %s %s' % (c[2], c[3], c[4])
     raise ValueError(c)
 
 def p_wire(c):
@@ -528,6 +549,8 @@ def p_wire(c):
     if k in ('p_unidentify', 'p_whoami'): return '%s\t%s' % (k, E(c[1]))
     if k in ('p_hostadd', 'p_hostrm'): return '%s\t%s\t%s\t%s\t%s' % (k, E(c[1]), wire.enc_opt(c[2]), E(c[3]), E(c[4]))
     if k == 'p_secure': return 'p_secure\t%s\t%s\t%d' % (E(c[1]), E(c[2]), c[3])
+    if k == 'p_changename': return 'p_changename\t%s\t%s\t%s\t%s' % (E(c[1]), E(c[2]), E(c[3]), E(c[4]))
+    if k == 'p_ambient': return 'p_ambient\t%d\t%d\t%d' % (c[1], c[2], c[3])
     if k == 'dump': return 'dump'
     raise ValueError(c)
 
@@ -553,9 +576,13 @@ def gen_pcmd(r, impl):
         if r.random() < 0.6:
             return ('p_hostrm', p, u.name or 'alice', r.choice(have) if have and r.random() < 0.8 else r.choice(P_MASKS), r.choice(P_PWS))
         return ('p_hostrm', p, None, r.choice(have) if have and r.random() < 0.8 else r.choice(P_MASKS + P_PREF), '')
-    if x < 0.82:
+    if x < 0.80:
         return ('p_secure', p, r.choice(P_PWS), r.randint(0, 1))
-    if x < 0.90:
+    if x < 0.83:
+        return ('p_hostrm', p, None, 'all', '')
+    if x < 0.87:
+        return ('p_changename', p, r.choice(names), r.choice(P_NAMES + ['dora', 'x!y@z', 'nm!um@dyn7.isp.example']), r.choice(P_PWS))
+    if x < 0.92:
         return ('p_tick', r.choice([1, 5, 9, 10, 11, 30, 60, 61]))
     return ('p_whoami', p)
 
@@ -594,26 +621,35 @@ def run_phistory(impl, r, n, kind, fixed=None):
             if len(cmds) > n: break
             c = ('reset', r.choice([0, 0, 10, 60])) if first else gen_pcmd(r, impl)
         first = False
-        if c[0] not in ('reset', 'p_tick') and n_matching(impl, c[1]) > 1:
-            # the bot looks the sender up several times around every command (checkIgnored, command
-            # capabilities, reply options); for a sender matching two accounts those lookups already
-            # delete masks.  That behaviour is covered on the dictionary stream; not used here.
-            tags.add('skipped:ambiguous-sender')
-            if it is not None: continue
-            n -= 1
-            if n < 0: break
-            continue
         cmds.append(c)
         k = c[0]
         by_name = None
         if k == 'reset':
             impl.reset(c[1]); out = 'ok'; secrets = {}; glog = set()
+            impl.b.irc.state.nicksToHostmasks.clear()
+            outs.append(out); lines.append(p_wire(c))
+            out = 'ok'; c2 = ('p_ambient',) + impl.ambient()
+            lines.append(p_wire(c2)); outs.append(out)
+            trace.append('%3d %-100s -> ok' % (len(cmds) - 1, repr(c)[:100]))
+            continue
         elif k == 'p_tick':
             impl.clock.now += c[1]; out = 'success'
         else:
             before = set(impl.U.users)
-            if k == 'p_identify':
+            target = None
+            if k == 'p_identify' and '!' not in c[2]:
+                # which account the command addresses: by name, else by the nick of somebody the bot has seen
                 by_name = [i for i, u in impl.U.users.items() if u.name.lower() == c[2].lower()]
+                if by_name:
+                    target = by_name[0]
+                else:
+                    seen = impl.b.irc.state.nicksToHostmasks
+                    hm = seen.get(c[2]) if c[2] in seen else (c[1] if o_lower(c[2]) == o_lower(c[1].split('!')[0]) else None)
+                    if hm is not None:
+                        m_ = [i for i, u in impl.U.users.items()
+                              if any(o_glob(str(x), hm) for x in u.hostmasks) or any(h == hm for (t, h) in impl.live_auth(u))]
+                        if len(m_) == 1: target = m_[0]
+                by_name = [target] if target is not None else None
             del impl.dup_lookups[:]
             try:
                 msgs = bot.feed(impl.b, c[1], impl.b.irc.nick, p_text(c))
@@ -621,16 +657,12 @@ def run_phistory(impl, r, n, kind, fixed=None):
             except Exception as e:
                 out = 'escaped\t' + type(e).__name__
             if c[1] in impl.dup_lookups:
-                # the command left its own sender matching two accounts (e.g. identify as X from a host that Y's
-                # mask matches): the bot's lookups of the sender after the command (reply options …) then delete
-                # masks.  The dictionary stream covers that; this history ends before the command.
-                cmds.pop(); tags.add('ended:sender-became-ambiguous')
-                break
+                tags.add('ambiguous-sender')
             if k == 'p_register':
                 for i in set(impl.U.users) - before:
                     secrets[i] = c[3]
-            if k == 'p_identify' and by_name and secrets.get(by_name[0]) == c[3] and '!' not in c[2]:
-                glog.add((by_name[0], impl.clock.now, c[1]))
+            if k == 'p_identify' and target is not None and secrets.get(target) == c[3]:
+                glog.add((target, impl.clock.now, c[1]))
             tags.add(k + ':' + out.split('\t')[0])
         outs.append(out); lines.append(p_wire(c))
         trace.append('%3d %-100s -> %s' % (len(cmds) - 1, repr(c)[:100], out.replace('\t', ' ')))
@@ -640,7 +672,7 @@ def run_phistory(impl, r, n, kind, fixed=None):
                 if len(cur) >= 2:
                     lines.append(wire_line(('order', i, cur))); outs.append('ok')
         # state, caches and ghost log after every command
-        lines.append('p_dump'); outs.append(impl.dump().split('|HF=')[0] + '|N=%d' % impl.U.nextId)
+        lines.append('dump'); outs.append(impl.dump())          # records AND both caches
         lines.append('p_log'); outs.append(','.join(sorted('%d:%d:%s' % (i, t, wire.enc(h)) for (i, t, h) in glog)) or '-')
         # ---- the property on the implementation
         for i, u in impl.U.users.items():
